@@ -162,8 +162,34 @@ def w_alias(_):
         acc.n += 1
         if a != b:
             acc.bad("isa:scalar_result_depends_on_previous_array_call", {"kind": "alias", "f": f.__name__})
+    # array layouts: every function must treat an array as the element-wise map it is, whatever the memory layout -
+    # 2-d C-ordered, Fortran-ordered, transposed, strided / reversed views, broadcast views, 0-d, a column, integer dtype
+    base = np.array([[0.0, 2500.0, 5000.0], [9000.0, 11000.0, 15000.0]])
+    spd = np.array([[60.0, 120.0, 180.0], [200.0, 230.0, 250.0]])
+    layouts = [("C", lambda a: np.ascontiguousarray(a)), ("F", lambda a: np.asfortranarray(a)), ("T", lambda a: np.ascontiguousarray(a.T).T),
+               ("T2", lambda a: a.T), ("rev", lambda a: a[::-1, ::-1]), ("strided", lambda a: np.repeat(a, 2, axis=1)[:, ::2]),
+               ("col", lambda a: a.reshape(-1, 1)), ("0d", lambda a: np.array(a.flat[4])), ("int", lambda a: a.astype(np.int64)),
+               ("f32", lambda a: a.astype(np.float32).astype(np.float64)), ("3d", lambda a: a.reshape(1, 2, 3))]
+    for lname, mk in layouts:
+        H = mk(base)
+        for f in fns1:
+            got = np.asarray(f(H), dtype=float)
+            want = np.vectorize(lambda h: float(f(float(h))))(np.asarray(H, dtype=float))
+            acc.n += 1
+            if got.shape != np.shape(H) or not np.allclose(got, want, rtol=1e-9, atol=0):
+                acc.bad("isa:array_result_is_not_the_elementwise_map:%s" % lname, {"kind": "alias", "f": f.__name__})
+        for f in fns2:
+            V = mk(np.array([[0.3, 0.4, 0.5], [0.6, 0.7, 0.8]]) if f.__name__.startswith("mach") else spd)
+            if lname == "int":
+                V = mk(spd) if not f.__name__.startswith("mach") else np.array([[0.3, 0.4, 0.5], [0.6, 0.7, 0.8]])
+            got = np.asarray(f(V, H), dtype=float)
+            want = np.vectorize(lambda v, h: float(f(float(v), float(h))))(np.asarray(V, dtype=float), np.asarray(H, dtype=float))
+            acc.n += 1
+            if got.shape != np.shape(H) or not np.allclose(got, want, rtol=1e-9, atol=0):
+                acc.bad("conv:array_result_is_not_the_elementwise_map:%s" % lname, {"kind": "alias", "f": f.__name__})
     acc.out.add(("alias",))
     acc.out.add(("alias2",))
+    acc.out.add(("layouts", len(layouts)))
     return acc.res()
 
 
